@@ -114,6 +114,36 @@ def run_history(job):
         common.drop_case_dir(d)
 
 
+XDIRS = ['plain', 'a_b', 'axb', 'p%c', 'pzzc', "o'k", 'PLAIN']
+
+
+def run_cross(job):
+    """rows are added from several directories whose names match one another as LIKE patterns; `history -p` in each
+    directory must list exactly the rows recorded there"""
+    order = job
+    d = common.fresh_case_dir()
+    try:
+        first = os.path.join(d, order[0])
+        for n in set(order):
+            os.makedirs(os.path.join(d, n), exist_ok=True)
+        if not make_db(d, first):
+            return job, {'machinery': 'the shell did not create the history database'}
+        env = {'HISTORY_FILE': os.path.join(d, 'history.sqlite')}
+        stamp = 0
+        for n in order:
+            stamp += 10
+            common.run_cicada(['-c', 'history add -t %d %s' % (stamp, shell_word('in-' + n))], d, cwd=os.path.join(d, n), env=env, stdin=b'', timeout=20)
+        out = {}
+        for n in sorted(set(order)):
+            r = common.run_cicada(['-c', 'history -p'], d, cwd=os.path.join(d, n), env=env, stdin=b'', timeout=20)
+            listed = [l.split(': ', 1)[1] if ': ' in l else l for l in r.out.decode('utf-8', 'replace').splitlines() if l.strip()]
+            out[n] = (listed, r.status, r.err.decode('utf-8', 'replace')[-200:])
+        rows = [x[1] for x in read_rows(d)]
+        return job, {'listed': out, 'rows': rows}
+    finally:
+        common.drop_case_dir(d)
+
+
 def op_alphabet(tier):
     ops = [('add', t) for t in TEXTS]
     ops += [('list',)]
@@ -216,6 +246,31 @@ def run(rep, tier):
             rep.outcome('ok:depth%d' % len(ops))
             rep.traces_validated += 1
     rep.bounds.append({'layer': 'history builtin, real binary, independent sqlite reader', 'depth': depth, 'histories': len(jobs), 'complete': True})
+    # rows from several directories: -p must select by the directory name taken literally
+    xjobs = [tuple(XDIRS), tuple(reversed(XDIRS))] + [tuple(p) for p in itertools.permutations(['a_b', 'axb', 'p%c', 'pzzc'], 4)][:6 if tier == 'quick' else 24]
+    for order, res in common.pmap(run_cross, xjobs, chunk=1):
+        rep.evaluations += 1
+        rep.transitions += 2 * len(order)
+        if 'machinery' in res:
+            rep.machinery.append(res['machinery'])
+            continue
+        if res['rows'] != ['in-' + n for n in order]:
+            rep.violation('cross-dir:rows-differ', {'directories_in_order': list(order)}, ['in-' + n for n in order], res['rows'])
+            continue
+        bad = False
+        for n, (listed, status, err) in res['listed'].items():
+            if listed != ['in-' + n] or status != 0:
+                kind = 'wildcard-in-name' if ('%' in n or '_' in n) else 'quote-in-name' if "'" in n else 'plain-name'
+                rep.violation('pwd-listing-differs:cross-dir:%s' % kind, {'directories_in_order': list(order), 'history -p in': n}, ['in-' + n],
+                              {'listed': listed, 'status': status, 'err': err}, repro='add rows from the directories, then `history -p` in %r' % n)
+                bad = True
+                break
+        if bad:
+            rep.outcome('deviation:cross-dir')
+        else:
+            rep.outcome('ok:cross-dir')
+            rep.traces_validated += 1
+    rep.bounds.append({'layer': 'rows from several directories with names matching one another as LIKE patterns; history -p per directory', 'histories': len(xjobs), 'complete': True})
     # interactive layer
     typed = ['vh-mark a 0', ' vh-mark a 0', 'vh-mark b 0']
     tjobs = []
